@@ -285,7 +285,65 @@ type c03Script struct {
 	Raw        []byte
 	CloseAfter bool
 	Break      bool // read the request, then drop the connection without answering
+	// Gate != nil: the first Hold bytes are written, the gate is told, and the rest is written when
+	// the gate opens (exchanges that overlap: every answer is under way before any is completed)
+	Hold int
+	Gate *c03Gate
 }
+
+// c03Gate opens when `need` parties have arrived and then either all of them were released by
+// release() (the clients have seen their response heads) or `grace` has passed - or, whatever
+// happened, after `max` (a guard: a party that never arrives must not block the others).
+type c03Gate struct {
+	mu       sync.Mutex
+	need     int
+	arrived  int
+	released int
+	grace    time.Duration
+	ch       chan struct{}
+	once     sync.Once
+	full     bool // all parties were under way at the same time when the gate opened
+}
+
+func c03NewGate(need int, grace, max time.Duration) *c03Gate {
+	g := &c03Gate{need: need, grace: grace, ch: make(chan struct{})}
+	time.AfterFunc(max, g.open)
+	return g
+}
+
+func (g *c03Gate) open() { g.once.Do(func() { close(g.ch) }) }
+
+func (g *c03Gate) arrive() {
+	g.mu.Lock()
+	g.arrived++
+	all := g.arrived == g.need
+	if all {
+		g.full = true
+	}
+	g.mu.Unlock()
+	if all {
+		time.AfterFunc(g.grace, g.open)
+	}
+}
+
+// release: one party's client has received its response head.
+func (g *c03Gate) release() {
+	g.mu.Lock()
+	g.released++
+	all := g.released >= g.need && g.arrived >= g.need
+	g.mu.Unlock()
+	if all {
+		g.open()
+	}
+}
+
+func (g *c03Gate) wasFull() bool {
+	g.mu.Lock()
+	defer g.mu.Unlock()
+	return g.full
+}
+
+const c03SlotHeader = "X-C03-Slot" // names the exchange a request belongs to when several are in flight
 
 // c03Backend may listen on several addresses (several "servers" of a pool); the requests of all
 // listeners are recorded in arrival order and answered from one queue of scripts (the last script
@@ -296,6 +354,7 @@ type c03Backend struct {
 	mu      sync.Mutex
 	reqs    []*c03BReq
 	scripts []*c03Script
+	bySlot  map[string]*c03Script // answers for requests that carry the slot header
 	conns   map[net.Conn]struct{}
 	wg      sync.WaitGroup
 }
@@ -377,7 +436,9 @@ func (b *c03Backend) serve(c net.Conn) {
 		b.mu.Lock()
 		b.reqs = append(b.reqs, r)
 		var sc *c03Script
-		if len(b.scripts) > 0 {
+		if slot := c03Get(lines, c03SlotHeader); len(slot) > 0 && b.bySlot[slot[0]] != nil {
+			sc = b.bySlot[slot[0]]
+		} else if len(b.scripts) > 0 {
 			sc = b.scripts[0]
 			if len(b.scripts) > 1 {
 				b.scripts = b.scripts[1:]
@@ -390,7 +451,19 @@ func (b *c03Backend) serve(c net.Conn) {
 		if sc.Break {
 			return
 		}
-		if _, err := c.Write(sc.Raw); err != nil {
+		rest := sc.Raw
+		if sc.Gate != nil {
+			hold := c03Min(sc.Hold, len(rest))
+			if _, err := c.Write(rest[:hold]); err != nil {
+				sc.Gate.arrive()
+				return
+			}
+			rest = rest[hold:]
+			sc.Gate.arrive()
+			<-sc.Gate.ch
+			c.SetDeadline(time.Now().Add(c03IOTimeout))
+		}
+		if _, err := c.Write(rest); err != nil {
 			return
 		}
 		if sc.CloseAfter || !r.Body.Complete {
@@ -403,7 +476,15 @@ func (b *c03Backend) serve(c net.Conn) {
 func (b *c03Backend) begin(scs ...*c03Script) {
 	b.mu.Lock()
 	b.scripts = scs
+	b.bySlot = nil
 	b.reqs = nil
+	b.mu.Unlock()
+}
+
+// slots installs the answers of exchanges that run at the same time (keyed by the slot header).
+func (b *c03Backend) slots(m map[string]*c03Script) {
+	b.mu.Lock()
+	b.bySlot = m
 	b.mu.Unlock()
 }
 
@@ -431,6 +512,7 @@ func (b *c03Backend) end() []*c03BReq {
 	r := b.reqs
 	b.reqs = nil
 	b.scripts = nil
+	b.bySlot = nil
 	return r
 }
 
@@ -650,8 +732,18 @@ func c03ParseStatus(start string) (proto string, code int, err error) {
 }
 
 // c03Do performs one exchange on a fresh connection.
-func c03Do(addr string, req *c03Request) *c03Response {
+func c03Do(addr string, req *c03Request) *c03Response { return c03DoHook(addr, req, nil) }
+
+// c03DoHook: onHead (if any) is called once, when the response head has arrived or the exchange ended
+// without one.
+func c03DoHook(addr string, req *c03Request, onHead func()) *c03Response {
 	res := &c03Response{After: "unknown"}
+	if onHead != nil {
+		var once sync.Once
+		hook := onHead
+		onHead = func() { once.Do(hook) }
+		defer onHead()
+	}
 	conn, err := net.DialTimeout("tcp", addr, c03IOTimeout)
 	if err != nil {
 		res.Err = err.Error()
@@ -687,6 +779,9 @@ func c03Do(addr string, req *c03Request) *c03Response {
 		if res.Status >= 200 || res.Status == 101 {
 			break
 		}
+	}
+	if onHead != nil {
+		onHead()
 	}
 	noBody := req.Method == "HEAD" || res.Status/100 == 1 || res.Status == 204 || res.Status == 304
 	res.Body = c03ReadBody(br, res.Lines, noBody, true)
